@@ -42,8 +42,9 @@ def ft_sh_phase_screen(r0, N, delta, L0, l0, FFT=None, seed=None):
     R = numpy.random.default_rng(seed)
 
     D = N * delta
-    # high-frequency screen from FFT method
-    phs_hi = ft_phase_screen(r0, N, delta, L0, l0, FFT, seed=seed)
+    # high-frequency screen from FFT method, drawn from the same generator: seeding a second generator with the same
+    # integer seed would make the sub-harmonic draws below a copy of the first draws of the high-frequency screen
+    phs_hi = ft_phase_screen(r0, N, delta, L0, l0, FFT, seed=R)
 
     # spatial grid [m]
     coords = numpy.arange(-N/2,N/2)*delta
